@@ -349,6 +349,7 @@ META = {
             "{default graph, IRI-named graph, blank-node-named graph} - which contains triples shared by several graphs, blank nodes shared "
             "across graphs and empty default graphs - through every quad-capable format; the parsed quads must equal the original up to one "
             "blank-node bijection that also maps graph names. RDF Patch diffs are produced for every ordered pair of a sub-universe and applied.",
-    "note": "Small scope: 4-5 triples, 3 graph names; HexTuples modulo simple literal = xsd:string; empty named graphs not compared.",
+    "note": "Small scope: 4-5 triples, 3 graph names; HexTuples modulo simple literal = xsd:string; empty named graphs not compared. One earlier write (another dataset, a named graph on its own, a plain Graph "
+            "with the same name) before the round trip: every ordered pair of the 2/3-triple sub-universe in the worker, 216 histories each in an interpreter of its own.",
     "technique": "exhaustive enumeration of dataset assignments through serialize+parse with a quad isomorphism oracle",
 }
